@@ -422,6 +422,14 @@ def run_frames(name, out, tier, seed):
                     R.setdefault(i, set()).add(j)
                 bad = [w for w in carriers if not R.get(w)]
                 lost = [p for p in pairs if p not in final]
+                # a successor the rule introduces is a witness: it must be a world that was not on the branch
+                stale = [p for p in final if p not in pairs and p[1] in present]
+                if stale and not (bad or lost):
+                    out.violation('frame-closure', dict(logic=name, pairs=pairs, carriers=list(carriers), final=final),
+                                  dict(diag='serial-successor-not-a-new-world', frame=S.frame, family=S.base_name),
+                                  f'{name}: worlds {present} with access {pairs}: the serial rule added {stale}, whose target '
+                                  f'was already on the branch (only a serial model that happens to have that pair satisfies it)')
+                    continue
                 if bad or lost:
                     out.violation('frame-closure', dict(logic=name, pairs=pairs, carriers=list(carriers), final=final),
                                   dict(diag='serial-successor-missing' if bad else 'access-pair-lost', frame=S.frame,
